@@ -4,12 +4,19 @@
 cd /verif
 names="$@"; [ -z "$names" ] && names=$(ls seeded | grep -E '^C[0-9]+-m[0-9]+$')
 mkdir -p out/seedall
+# run from a snapshot of /verif, so that work in /verif during the sweep cannot disturb it
+snap=/tmp/vsnap.$$
+rm -rf $snap; mkdir -p $snap/out
+rsync -a --exclude out --exclude .git /verif/ $snap/
+cp -r /verif/out/cache $snap/out/cache 2>/dev/null
+export VROOT=$snap
+trap 'rm -rf $snap' EXIT
 run1() {
   n=$1; p=${n%%-*}
-  o=$(bin/seedtest.sh $n $p 2>&1)
+  o=$(/verif/bin/seedtest.sh $n $p 2>&1)
   rc=$(echo "$o" | sed -n 's/^RESULT .* rc=\([0-9]*\)$/\1/p' | tail -1)
   sig=$(echo "$o" | sed -n 's/^ *signature: //p' | sed 's/[0-9]\{2,\}/N/g' | sort -u | head -3 | tr '\n' ' ')
-  echo "$n $p rc=$rc $sig" > out/seedall/$n.txt
+  echo "$n $p rc=$rc $sig" > /verif/out/seedall/$n.txt
 }
 export -f run1
 echo $names | tr ' ' '\n' | xargs -P ${PAR:-4} -I{} bash -c 'run1 {}'
